@@ -160,6 +160,7 @@ type World struct {
 	polyBD map[int]*shcrypto.Polynomial // Byzantine: polynomial of another degree
 	stage  int
 	rej    int
+	rl     []int
 	rng    *rand.Rand
 	Panics []string
 	Calls  int
@@ -239,9 +240,10 @@ func (w *World) guard(what string, f func() error) (err error) {
 func tokOf(i int) string { return fmt.Sprintf("k%d", i) }
 
 // NewWorld builds chain + keypers and runs the prologue up to the state InitState of DKG.tla:
-// block 1 genesis config, block 2 check-ins of all keypers, block 3 (= relative block 0) the
-// votes for keyper config 1, which make shuttermint emit BatchConfig + EonStarted; every honest
-// keyper has processed block 3; block 4 (relative 1) is open.
+// block 1 genesis config, block 2 check-ins of all keypers, block 3 the votes for keyper config 1
+// (BatchConfig + EonStarted of a first eon), empty blocks until that eon has failed for everybody,
+// then the block with the failure votes in which shuttermint restarts the eon (= relative block
+// 0); every honest keyper has processed it; relative block 1 is open.
 func NewWorld(cfg Cfg, seed int64, lag int64) (*World, error) { return NewWorldHold(cfg, seed, lag, 0) }
 
 // NewWorldHold is NewWorld, except that keyper hold (if >0) has not yet applied the EonStarted
@@ -253,7 +255,7 @@ func NewWorldHold(cfg Cfg, seed int64, lag int64, hold int) (*World, error) {
 	}
 	w := &World{Cfg: cfg, Seed: seed, Nodes: map[int]*Node{}, privs: map[int]*ecdsa.PrivateKey{}, encs: map[int]*ecies.PrivateKey{},
 		polys: map[int]*shcrypto.Polynomial{}, poly2: map[int]*shcrypto.Polynomial{}, polyBD: map[int]*shcrypto.Polynomial{},
-		rng: rand.New(rand.NewSource(seed))}
+		rng: rand.New(rand.NewSource(seed)), rl: make([]int, cfg.N)}
 	keyord := []string{sm.NoVal}
 	for i := 1; i <= cfg.N; i++ {
 		w.toks = append(w.toks, tokOf(i))
@@ -339,10 +341,39 @@ func NewWorldHold(cfg Cfg, seed int64, lag int64, hold int) (*World, error) {
 		}
 	}
 	w.Chain.CloseBlock()
+	if w.Chain.App.DKGMap[a.EONCounter] == nil {
+		return nil, fmt.Errorf("prologue: shuttermint did not start an eon")
+	}
+	// the first eon of the new keyper set fails: nobody gets a message through until every keyper
+	// has finalised it (empty blocks up to the end of its apologising phase) ...
+	first := w.Chain.Height()
+	if err := w.syncAll(); err != nil {
+		return nil, err
+	}
+	for w.Chain.Height() < first+int64(3*cfg.PhaseLen) {
+		w.Chain.OpenBlock()
+		w.Chain.CloseBlock()
+		if err := w.syncAll(); err != nil {
+			return nil, err
+		}
+	}
+	// ... then the keypers send everything they queued, including their DKGResult(failure) votes;
+	// the T-th one makes shuttermint restart the eon: EonStarted for the SAME keyper config, several
+	// blocks after the block in which the config was registered (tendermint_batch_config.height <
+	// eons.height, as in production after a failed key generation)
+	w.Chain.OpenBlock()
+	for i := 1; i <= cfg.N; i++ {
+		if n := w.Nodes[i]; n != nil {
+			if err := w.flush(n, 10); err != nil {
+				return nil, err
+			}
+		}
+	}
+	w.Chain.CloseBlock()
 	w.H0 = w.Chain.Height()
 	w.Eon = a.EONCounter
-	if a.DKGMap[w.Eon] == nil {
-		return nil, fmt.Errorf("prologue: shuttermint did not start an eon")
+	if a.DKGMap[w.Eon] == nil || w.Eon < 2 {
+		return nil, fmt.Errorf("prologue: shuttermint did not restart the eon (eon counter %d)", w.Eon)
 	}
 	for i := 1; i <= cfg.N; i++ {
 		if n := w.Nodes[i]; n != nil && i != hold {
@@ -875,7 +906,7 @@ func (w *World) State() J {
 			blk = append(blk, w.absEvents(o.Height, r.Events)...)
 		}
 	}
-	return J{"h": w.RelH(), "stage": w.stage, "rej": w.rej, "kp": kp, "app": w.absApp(), "blk": blk}
+	return J{"h": w.RelH(), "stage": w.stage, "rej": w.rej, "rl": append([]int{}, w.rl...), "kp": kp, "app": w.absApp(), "blk": blk}
 }
 
 func rank(o Op, n int) int {
@@ -890,8 +921,10 @@ func rank(o Op, n int) int {
 		return 4*(o.S-1) + 4
 	case "post":
 		return 4*n + o.S
+	case "reload":
+		return 5*n + o.S
 	}
-	return 5*n + 1
+	return 6*n + 1
 }
 
 // Apply executes one op on the real world.
@@ -913,6 +946,20 @@ func (w *World) Apply(o Op) Out {
 		}
 		if rel < w.Cfg.LastBlock() {
 			w.Chain.OpenBlock()
+		}
+		return out
+	case "reload":
+		n := w.Nodes[o.S]
+		w.stage = rank(o, w.Cfg.N)
+		if n == nil {
+			return out
+		}
+		w.rl[o.S-1] = w.RelH()
+		if (w.Seed+int64(o.S)+int64(w.RelH()))%2 == 0 {
+			// what SyncAppWithDB does after a failed block transaction
+			n.state.Invalidate()
+		} else if err := n.start(context.Background()); err != nil { // process restart
+			w.Panics = append(w.Panics, "restart: "+err.Error())
 		}
 		return out
 	case "post":
